@@ -401,7 +401,11 @@ class ExtraCoords(ExtraCoordsABC):
         if all(isinstance(i, Integral) for i in wcs_item):
             return type(self)()
 
-        subwcs = self.wcs[tuple(wcs_item[::-1])]
+        if hasattr(self.wcs, "__getitem__"):
+            subwcs = self.wcs[tuple(wcs_item[::-1])]
+        else:
+            # e.g. an already sliced WCS
+            subwcs = HighLevelWCSWrapper(SlicedLowLevelWCS(self.wcs.low_level_wcs, tuple(wcs_item[::-1])))
 
         # Cube pixel axes are renumbered for the cube axes dropped below them.
         dropped_pixel_axes = [cube_ndim - 1 - i for i, subitem in enumerate(item)
